@@ -4,6 +4,8 @@ package netdrv
 
 import (
 	"net"
+	"os"
+	"strconv"
 	"testing"
 	"time"
 
@@ -87,7 +89,7 @@ func TestC15Datagram(t *testing.T) {
 	ts.Close()
 	gw.Close()
 	// router socket (multicast, loopback on so that a second member of the group on this host sees the datagrams)
-	const group = "239.77.77.78:36712"
+	group := "239.78." + strconv.Itoa(1+os.Getpid()%250) + ".78:" + strconv.Itoa(38000+os.Getpid()%2000)
 	rs, err := knxnet.ListenRouterOnInterface(nil, group, true)
 	if err != nil {
 		t.Logf("router socket not available here: %v", err)
